@@ -164,7 +164,7 @@ def name_failure(unit, d, lines_map, gen_name):
             at_text = (s['text'][0]['text'].strip() if s.get('text') else '')
             break
     # the clause
-    for s in prim:
+    for s in (prim + sec if kind == 'callee-pre' else prim):
         e = ent(s)
         if e and e.get('k') in ('contract', 'ghost') and e.get('clause'):
             clause = e['clause']; props = e.get('props', [])
@@ -177,7 +177,8 @@ def name_failure(unit, d, lines_map, gen_name):
             fn = e.get('fn')
     if kind == 'callee-pre' and clause is None:
         # precondition of a prelude / vstd function (unwrap, index, ...)
-        s = prim[0] if prim else None
+        cand = [x for x in d['spans'] if (x.get('label') or '').startswith('failed precondition')]
+        s = cand[0] if cand else (prim[0] if prim else None)
         if s is not None:
             callee = 'vstd' if not own(s) else 'prelude'
             txt = s['text'][0]['text'].strip() if s.get('text') else ''
